@@ -469,6 +469,7 @@ theorem tr_frag (S : Schema) (sel : Cls) (db : DB) (roots : List Nat) : ∀ (e :
       refine ⟨n != 0, ?_, ?_⟩
       · simp [evalCond, hn, pyTruthy]
       · simp [evalSql, hcv]
+  | substr tab a b => intro uo st p st' hf; simp [Frag] at hf
   | not e _ => intro uo st p st' hf; simp [Frag] at hf
   | exist v e _ => intro uo st p st' hf; simp [Frag] at hf
   | all v e _ => intro uo st p st' hf; simp [Frag] at hf
@@ -611,6 +612,7 @@ theorem C07_rejects_nested (S : Schema) (vars : List Cls) : ∀ (e : Expr) (uo :
   | cmp op l r => intro uo st h; simp [ContainsOutside, OutsideDispatch] at h
   | isIn i vs => intro uo st h; simp [ContainsOutside, OutsideDispatch] at h
   | attr c => intro uo st h; simp [ContainsOutside, OutsideDispatch] at h
+  | substr tab a b => intro uo st h; simp [ContainsOutside, OutsideDispatch] at h
   | not e _ => intro uo st _; exact ⟨_, C07_rejects S vars uo _ st trivial⟩
   | exist v e _ => intro uo st _; exact ⟨_, C07_rejects S vars uo _ st trivial⟩
   | all v e _ => intro uo st _; exact ⟨_, C07_rejects S vars uo _ st trivial⟩
@@ -708,6 +710,34 @@ theorem C07_cex_eq_join_under_or :
     ∃ s, translate connSchema qJoinUnderOr = .ok s ∧ trigEqJoin s = true ∧
       toSet (execSql connSchema s connDB) = [] ∧ evalMem connSchema qJoinUnderOr connDB = some [2] := by
   refine ⟨_, rfl, ?_, ?_, ?_⟩ <;> decide
+
+def nameSchema : Schema := [⟨"Body", none, ["name"], []⟩]
+/-- ranks: 1 ↦ "B", 2 ↦ "a_", 3 ↦ "ab", 4 ↦ "b" (code-point order) -/
+def nameTab : StrTab := [['B'], ['a', '_'], ['a', 'b'], ['b']]
+def named (k : Int) : Obj := ⟨"Body", [("name", some k)], []⟩
+/-- bodies named "a_", "ab", "b" -/
+def nameDB : DB := [named 2, named 3, named 4]
+
+/-- `an(entity(b, contains(b.name, "B")))` -/
+def qLike : Query := ⟨false, .entity, ["Body"], some (.substr nameTab (.chain ⟨0, ["name"]⟩) (.lit 1))⟩
+
+/-- **C07_cex_like_substring** (F-C07-5, repaired by fix 20e7107).  Before the fix `contains(b.name, "B")` was rendered
+`name LIKE '%' || 'B' || '%'`; SQLite's LIKE is case-insensitive and `_`/`%` are wildcards, so that rendering selects the
+bodies named "ab" and "b" (and `'a_' LIKE '%_%'`-style matches) while `"B" in name` is false for every body in memory.
+With the fix the atom is rendered with the exact `instr`, and SQL and memory agree on the same data. -/
+theorem C07_cex_like_substring :
+    (sqlLike ['a', 'b'] ['%', 'B', '%'] = true ∧ isInfixL ['B'] ['a', 'b'] = false) ∧
+    (sqlLike ['a', 'c'] ['%', '_', 'c', '%'] = true ∧ isInfixL ['_', 'c'] ['a', 'c'] = false) ∧
+    ∃ s, translate nameSchema qLike = .ok s ∧ trigLike s = false ∧
+      toSet (execSql nameSchema s nameDB) = [] ∧ evalMem nameSchema qLike nameDB = some [] := by
+  refine ⟨by decide, by decide, _, rfl, ?_, ?_, ?_⟩ <;> decide
+
+/-- the other direction (a test): `contains("ab", b.name)` is `instr('ab', name) > 0`, an exact substring test in which a
+stored `_` is NOT a wildcard: only "ab" and "b" are selected, in both worlds. -/
+example : ∃ s, translate nameSchema ⟨false, .entity, ["Body"], some (.substr nameTab (.lit 3) (.chain ⟨0, ["name"]⟩))⟩ = .ok s ∧
+    execSql nameSchema s nameDB = [1, 2] ∧
+    evalMem nameSchema ⟨false, .entity, ["Body"], some (.substr nameTab (.lit 3) (.chain ⟨0, ["name"]⟩))⟩ nameDB = some [1, 2] := by
+  refine ⟨_, rfl, ?_, ?_⟩ <;> decide
 
 /-! ## Non-vacuity: the hypotheses of `C07_preserves_partial` are satisfiable by a non-trivial input, the translator
 accepts it, and the common answer is neither empty nor everything. -/
